@@ -1,4 +1,5 @@
 import ArrModel.C08
+import ArrModel.C08Kernels
 import Driver.Proto
 /-! C08 driver: *index protocol*.  The model is run on a tag array with lane-collecting 1-D bodies, so every output
 position answers with the list of input positions (the lane) the real operation must have been applied to
@@ -48,6 +49,44 @@ def reduceOps := ["sum", "prod", "nansum", "nanprod", "max", "min", "nanmax", "n
 def countOps := ["count_nonzero", "argmax", "argmin"]
 def scanOps := ["cumsum", "cumprod", "nancumsum", "nancumprod"]
 
+/-! ### value cases (seventh token `val`): the VALUES are answered, by the kernel definitions of `ArrModel/C08Kernels.lean`
+(`reduceOp` / `scanOp` / `countOp`, the definitions the kernel theorems of `Props/C08.lean` are about).  The array is written out
+(`shape:v,v,…`); integer element types run on `Elem.int`, `f64` / `f32` on `Elem.nanInt` (elements: integers or `n` = NaN; the harness
+only sends lanes on which float arithmetic is exact).  Answer: `shape:v,v,…` with `NaN` for the NaN. -/
+open ArrModel.C08K in
+def redOp? : String → Option RedOp
+  | "sum" => some .sum | "prod" => some .prod | "nansum" => some .nansum | "nanprod" => some .nanprod
+  | "max" | "amax" => some .max | "min" | "amin" => some .min | "nanmax" => some .nanmax | "nanmin" => some .nanmin
+  | _ => none
+open ArrModel.C08K in
+def scanOp? : String → Option ScanOp
+  | "cumsum" => some .cumsum | "cumprod" => some .cumprod | "nancumsum" => some .nancumsum | "nancumprod" => some .nancumprod
+  | _ => none
+open ArrModel.C08K in
+def cntOp? : String → Option CntOp
+  | "count_nonzero" => some .countNonzero | "argmax" => some .argmax | "argmin" => some .argmin
+  | _ => none
+
+def parseNanInt? (s : String) : Option (Option Int) := if s == "n" then some none else (parseInt? s).map some
+def showNanInt : Option Int → String | some i => toString i | none => "NaN"
+
+/-- `shape:elems` with the elements written out -/
+def parseValArr? {β} (f : String → Option β) (s : String) : Option (Arr β) :=
+  match s.splitOn ":" with
+  | [sh, es] => do let shape ← parseNatList? sh; let elems ← parseList? f es; some ⟨elems, shape⟩
+  | _ => none
+
+def showValArr {β} (f : β → String) (a : Arr β) : String := showNatList a.shape ++ ":" ++ showList f a.elems
+
+open ArrModel.C08K in
+def handleVal {β} (E : Elem β) (pe : String → Option β) (se : β → String) (op a ax kd : String) : Option String := do
+  let a ← parseValArr? pe a; let ax ← parseOpt? parseInt? ax; let kd ← parseKd? kd
+  match redOp? op, scanOp? op, cntOp? op with
+  | some r, _, _ => some (showRes (showValArr se) (reduceOp E r a ax))
+  | _, some s, _ => some (showRes (showValArr se) (scanOp E s a ax))
+  | _, _, some c => some (showRes (showValArr toString) (countOp E c a ax kd))
+  | _, _, _ => none
+
 /-- `op dtype tag axis keepdims vseed` — dtype and vseed only matter to the Rust side.
 `op dtype tag axis keepdims vseed ref` (seventh token `ref`): a case beyond the reach of the list-backed model (16 384 … 140 000
 elements; the model is quadratic).  The driver does NOT answer it: it says `ref`, and the harness judges the real result
@@ -58,6 +97,9 @@ def handle (op : String) (args : List String) : Option String :=
   | [] => if op == "refstats" then some "ref" else none
   | [_, _, _, _, _, "ref"] =>
     if reduceOps.contains op || countOps.contains op || scanOps.contains op then some "ref" else none
+  | [dt, a, ax, kd, _, "val"] =>
+    if dt.startsWith "f" then handleVal ArrModel.C08K.Elem.nanInt parseNanInt? showNanInt op a ax kd
+    else handleVal ArrModel.C08K.Elem.int parseInt? toString op a ax kd
   | [_, a, ax, kd, _] => do
     let a ← parseArr? a; let ax ← parseOpt? parseInt? ax; let kd ← parseKd? kd
     if reduceOps.contains op then some (showRes showLaneArr (a.reduceAxis 0 [] ax reduceBody))
